@@ -10,12 +10,12 @@ package main
 //                  test files and for generated programs: stdout, values+types, error line  [search]
 
 import (
-	"math"
 	"bytes"
 	"fmt"
 	"go/ast"
 	"go/parser"
 	"go/token"
+	"math"
 	"os"
 	"path/filepath"
 	"regexp"
